@@ -243,6 +243,7 @@ def gen_scenario(rng, idx, thorough):
     nstore = rng.randint(5, 8) if not thorough else rng.randint(6, 10)
     fn_i = 0
     stored = []
+    race_at = rng.randrange(nstore) if rng.random() < 0.25 else -1
     for i in range(nstore):
         if i > 0 and rng.random() < 0.25:
             cfg = {"imap": rng.random() < 0.5, "lmtp": rng.random() < 0.5}
@@ -290,6 +291,21 @@ def gen_scenario(rng, idx, thorough):
             script = []
         steps.append(("store", side, script, parts, single, rcpts))
         stored += [t for (_, t, _) in parts]
+        if rng.random() < 0.22:
+            # the IMAP side removes an entry (the part rows and blobs must not be affected),
+            # then everything every user still has is read back
+            for _ in range(rng.randint(1, 2)):
+                steps.append(("remove", rng.choice(rcpts + ["alice", "bob"]),
+                              rng.choice(["expunge", "expunge", "close", "uid_expunge", "copy_expunge", "delete_mailbox"]),
+                              "newest" if rng.random() < 0.65 else "oldest"))
+            steps.append(("reads", "live"))
+        if race_at == i:
+            users = ["alice", "bob", "carol"]
+            pair = rng.sample(users, 2)
+            fn_i += 3
+            steps.append(("race", [("", b"raced " + text_of(rng, 24), "r%d.bin" % fn_i)], pair,
+                          [(rng.choice(users + ["sales"]), [("", b"warm " + text_of(rng, 20), "w%d.bin" % (fn_i + k))]) for k in (1, 2)]))
+            steps.append(("reads", "live"))
         if rng.random() < 0.35:
             steps.append(("reads", "last"))
     steps.append(("reads", "all"))
@@ -347,18 +363,40 @@ def compile_scenario(steps, rng, parsed_of):
         ops.append(o)
         plan.append(p)
 
+    live = {}     # (conn, mailbox) -> copies still filed there, in sequence-number order
+
     def new_copy(key):
         _, store, conn, mbox = RCPT[key]
         count[(conn, mbox)] = count.get((conn, mbox), 0) + 1
+        live.setdefault((conn, mbox), []).append(len(copies))
+        # ord = position among the messages of its store file (part rows are never deleted)
         copies.append((store, conn, mbox, count[(conn, mbox)]))
 
-    def reads_for(m, reader, faulty):
-        single, nrows = msgs[m]
-        store, conn, mbox, seq = copies[m]
+    def select(conn, mbox):
         if selected.get(conn) != mbox:
             t = tag()
             add({"op": "send", "conn": conn, "data": "%s SELECT %s\r\n" % (t, mbox), "until": "tag:" + t})
             selected[conn] = mbox
+
+    def cmd(conn, text, what):
+        t = tag()
+        add({"op": "send", "conn": conn, "data": "%s %s\r\n" % (t, text), "until": "tag:" + t}, ("cmd", t, what))
+
+    def lmtp_session(l, key_list, separate=False):
+        add({"op": "lmtp_open", "conn": l, "separate_mgr": separate})
+        add({"op": "send", "conn": l, "data": "LHLO x\r\n", "until": "lmtp:1"})
+        add({"op": "send", "conn": l, "data": "MAIL FROM:<s@example.com>\r\n", "until": "lmtp:1"})
+        for key in key_list:
+            add({"op": "send", "conn": l, "data": "RCPT TO:<%s>\r\n" % RCPT[key][0], "until": "lmtp:1"}, ("rcpt",))
+        add({"op": "send", "conn": l, "data": "DATA\r\n", "until": "lmtp:1"})
+
+    def reads_for(m, reader, faulty):
+        single, nrows = msgs[m]
+        store, conn, mbox, _ = copies[m]
+        if m not in live.get((conn, mbox), []):
+            return   # expunged: no longer addressable
+        seq = live[(conn, mbox)].index(m) + 1
+        select(conn, mbox)
         ks = [1] if single else list(range(1, nrows))
         for k in ks:
             script = []
@@ -399,21 +437,16 @@ def compile_scenario(steps, rng, parsed_of):
             add({"op": "s3_script", "script": script})
             if side == "lmtp":
                 l = "l%d" % ntx
-                add({"op": "lmtp_open", "conn": l})
-                add({"op": "send", "conn": l, "data": "LHLO x\r\n", "until": "lmtp:1"})
-                add({"op": "send", "conn": l, "data": "MAIL FROM:<s@example.com>\r\n", "until": "lmtp:1"})
-                for key in rcpts:
-                    add({"op": "send", "conn": l, "data": "RCPT TO:<%s>\r\n" % RCPT[key][0], "until": "lmtp:1"}, ("rcpt",))
-                add({"op": "send", "conn": l, "data": "DATA\r\n", "until": "lmtp:1"})
+                lmtp_session(l, rcpts)
                 add({"op": "send", "conn": l, "data": C.latin(raw) + ".\r\n", "until": "lmtp:%d" % len(rcpts), "timeout_ms": 30000},
-                    ("stored", nmsg, side, cfg[side], script, raw, "250", locked, len(rcpts)))
+                    ("stored", nmsg, side, cfg[side], script, raw, "250", locked, len(rcpts), False))
                 add({"op": "send", "conn": l, "data": "QUIT\r\n", "until": "lmtp:1"})
             else:
                 rcpts = ["alice"]
                 t = tag()
                 add({"op": "send", "conn": "c", "data": "%s APPEND INBOX {%d}\r\n" % (t, len(raw)), "until": "cont:" + t})
                 add({"op": "send", "conn": "c", "data": C.latin(raw) + "\r\n", "until": "tag:" + t, "timeout_ms": 20000, "only_if_cont": True},
-                    ("stored", nmsg, side, cfg[side], script, raw, t + " OK", locked, 1))
+                    ("stored", nmsg, side, cfg[side], script, raw, t + " OK", locked, 1, False))
             add({"op": "s3_script", "script": []})
             add({"op": "s3_state"}, ("storelog",))
             for key in rcpts:
@@ -422,9 +455,81 @@ def compile_scenario(steps, rng, parsed_of):
                 nmsg += 1
             ntx += 1
             selected.clear()
+        elif st[0] == "remove":
+            # one entry leaves a mailbox through the IMAP side; the message's part rows and
+            # blobs are not touched by raven (no model event)
+            _, key, kind, which = st
+            if key == "sales" and kind in ("copy_expunge", "delete_mailbox"):
+                kind = "expunge"   # no second mailbox in the role store to copy into
+            _, store, conn, mbox = RCPT[key]
+            lst = live.get((conn, mbox), [])
+            if not lst:
+                continue
+            selected.clear()
+            select(conn, mbox)
+            pos = len(lst) - 1 if which == "newest" else 0
+            seq = pos + 1
+            if kind == "delete_mailbox":
+                box = "tmpbox%d" % len(ops)
+                cmd(conn, "CREATE %s" % box, "CREATE")
+                cmd(conn, "COPY %d %s" % (seq, box), "COPY")
+                cmd(conn, "DELETE %s" % box, "DELETE")
+            else:
+                if kind == "copy_expunge":
+                    cmd(conn, "COPY %d Trash" % seq, "COPY")
+                cmd(conn, "STORE %d +FLAGS (\\Deleted)" % seq, "STORE")
+                cmd(conn, {"expunge": "EXPUNGE", "copy_expunge": "EXPUNGE", "close": "CLOSE", "uid_expunge": "UID EXPUNGE 1:*"}[kind], kind)
+                lst.pop(pos)
+            selected.clear()
+        elif st[0] == "race":
+            # two sessions (two DBManagers = two connection pools) store the SAME new content for
+            # two users while a third connection holds the write lock of shared.db: both hash
+            # look-ups miss, both INSERTs queue. Before that each pool's connection inserts a
+            # singly referenced blob of its own (warm-up deliveries).
+            _, parts, pair, warm = st
+            add({"op": "s3_enable", "imap": cfg["imap"], "lmtp": False, "timeout": 2})
+            for wi, (wkey, wparts) in enumerate(warm):
+                raw = mk_message(wparts, False, "m%d" % nmsg)
+                add({"op": "s3_script", "script": []})
+                l = "l%d" % ntx
+                lmtp_session(l, [wkey], separate=(wi == 1))
+                add({"op": "send", "conn": l, "data": C.latin(raw) + ".\r\n", "until": "lmtp:1", "timeout_ms": 30000},
+                    ("stored", nmsg, "lmtp", False, [], raw, "250", False, 1, False))
+                add({"op": "send", "conn": l, "data": "QUIT\r\n", "until": "lmtp:1"})
+                add({"op": "s3_state"}, ("storelog",))
+                msgs.append((False, len(parsed_of(raw))))
+                new_copy(wkey)
+                nmsg += 1
+                ntx += 1
+            raw = mk_message(parts, False, "m%d" % nmsg)
+            la, lb = "l%d" % ntx, "l%d" % (ntx + 1)
+            lmtp_session(la, [pair[0]], separate=False)
+            lmtp_session(lb, [pair[1]], separate=True)
+            add({"op": "db_lock"})
+            add({"op": "send", "conn": la, "data": C.latin(raw) + ".\r\n", "until": ""})
+            add({"op": "send", "conn": lb, "data": C.latin(raw) + ".\r\n", "until": ""})
+            add({"op": "sleep", "ms": 1500})
+            add({"op": "db_unlock"})
+            add({"op": "send", "conn": la, "data": "", "until": "lmtp:1", "timeout_ms": 30000},
+                ("stored", nmsg, "lmtp", False, [], raw, "250", False, 1, True))
+            add({"op": "send", "conn": lb, "data": "", "until": "lmtp:1", "timeout_ms": 30000},
+                ("stored", nmsg + 1, "lmtp", False, [], raw, "250", False, 1, True))
+            add({"op": "send", "conn": la, "data": "QUIT\r\n", "until": "lmtp:1"})
+            add({"op": "send", "conn": lb, "data": "QUIT\r\n", "until": "lmtp:1"})
+            add({"op": "s3_state"}, ("storelog",))
+            for key in pair:
+                msgs.append((False, len(parsed_of(raw))))
+                new_copy(key)
+                nmsg += 1
+            ntx += 2
+            selected.clear()
+            add({"op": "s3_enable", "imap": cfg["imap"], "lmtp": cfg["lmtp"], "timeout": 2})
         elif st[0] == "reads":
             selected.clear()
-            if st[1] == "last":
+            if st[1] == "live":
+                for m in range(nmsg):
+                    reads_for(m, cfg["imap"], False)
+            elif st[1] == "last":
                 if msgs:
                     reads_for(nmsg - 1, cfg["imap"], True)
             else:
@@ -492,6 +597,9 @@ def steps_json(steps):
             out.append(["store", st[1], list(st[2]), [[e, C.latin(t), fn] for (e, t, fn) in st[3]], st[4]] + ([list(st[5])] if len(st) > 5 else []))
         elif st[0] == "lose":
             out.append(["lose", None if st[1] is None else [C.latin(x) for x in st[1]]])
+        elif st[0] == "race":
+            out.append(["race", [[e, C.latin(t), fn] for (e, t, fn) in st[1]], list(st[2]),
+                        [[k, [[e, C.latin(t), fn] for (e, t, fn) in ps]] for (k, ps) in st[3]]])
         else:
             out.append(list(st))
     return out
@@ -504,6 +612,9 @@ def steps_unjson(steps):
             st = ("store", st[1], st[2], [(e, C.unlatin(t), fn) for (e, t, fn) in st[3]], st[4]) + ((list(st[5]),) if len(st) > 5 else ())
         elif st[0] == "lose":
             st = ("lose", None if st[1] is None else [C.unlatin(x) for x in st[1]])
+        elif st[0] == "race":
+            st = ("race", [(e, C.unlatin(t), fn) for (e, t, fn) in st[1]], list(st[2]),
+                  [(k, [(e, C.unlatin(t), fn) for (e, t, fn) in ps]) for (k, ps) in st[3]])
         out.append(tuple(st))
     return out
 
@@ -549,6 +660,9 @@ def judge_scenarios(chk, scen, rng, corpus_expect=None):
         for st in steps:
             if st[0] == "store":
                 raws.append(mk_message(st[3], st[4], "m"))
+            elif st[0] == "race":
+                raws.append(mk_message(st[1], False, "m"))
+                raws += [mk_message(ps, False, "m") for (_, ps) in st[3]]
     pre = C.run_ops([{"op": "batch", "fn": "parseMIMEParts", "cases": [{"a": [C.latin(r)]} for r in raws]}], timeout=300)
     if pre.get("crashed") or "rs" not in pre["obs"][0]:
         chk.broken_obligation("driver failed on the C15 parse pre-run: %s" % str(pre)[:400])
@@ -595,14 +709,17 @@ def judge_scenarios(chk, scen, rng, corpus_expect=None):
                     anomalies.append("op %s failed: %s" % (ops[i].get("op"), str(o)[:200]))
                 i += 1
                 continue
-            if p[0] == "ident":
+            if p[0] == "cmd":
+                if ("%s OK" % p[1]) not in o.get("recv", ""):
+                    anomalies.append("%s was not answered OK: %r" % (p[2], o.get("recv", "")[:120]))
+            elif p[0] == "ident":
                 if o.get("id") != p[1]:
                     anomalies.append("unexpected user / role id %r (expected %d)" % (o, p[1]))
             elif p[0] == "rcpt":
                 if not o.get("recv", "").startswith("250"):
                     anomalies.append("RCPT was not accepted: %r" % o.get("recv", "")[:100])
             elif p[0] == "stored":
-                _, m, side, writer_s3, script, raw, expect, dblocked, nrcpt = p
+                _, m, side, writer_s3, script, raw, expect, dblocked, nrcpt, racing = p
                 parts = parsed_of(raw)
                 recv = o.get("recv", "")
                 if o.get("skipped") or recv.count(expect) < nrcpt:
@@ -619,7 +736,8 @@ def judge_scenarios(chk, scen, rng, corpus_expect=None):
                     # several recipients: only unscripted transactions (every outcome ok), so each
                     # recipient's store loop sees an all-ok oracle
                     orc = oracle_of(evlog) if nrcpt == 1 else "[]"
-                    evs.append("EStore %s %s %s %s" % (C.coq_bool(writer_s3), orc, C.coq_list(["OFail"] * len(parts) if dblocked else []), C.coq_list(
+                    dorc = ("@DORC%d@" % (m + ri)) if racing else C.coq_list(["OFail"] * len(parts) if dblocked else [])
+                    evs.append("EStore %s %s %s %s" % (C.coq_bool(writer_s3), orc, dorc, C.coq_list(
                         ["mkPart %s %s %s" % (T(enc), T(content), C.coq_bool(named)) for (enc, content, named, _) in parts])))
             elif p[0] == "lose":
                 if p[1] is None:
@@ -663,7 +781,7 @@ def judge_scenarios(chk, scen, rng, corpus_expect=None):
                 form = "FLocal %s" % T(C.unlatin(content))
             oblobs.append("mkBlob %s (%s) %d" % (keyt, form, refs))
             if bid != len(oblobs):
-                anomalies.append("blob ids are not 1..n")
+                anomalies.append("blob ids are not 1..n: a blob row was deleted")
         # observed bucket
         oobjs = []
         for ent in bucket:
@@ -694,6 +812,15 @@ def judge_scenarios(chk, scen, rng, corpus_expect=None):
                 penc = parts[ri][0] if ri < len(parts) else enc
                 l.append("orow %s %s %s %s" % ("None" if blob is None else "(Some %d)" % blob, T(text), T(penc), T(own)))
             omsgs.append(C.coq_list(l))
+        # a store that raced with another one for the same new hash: the loser's INSERT fails
+        # on UNIQUE(sha256_hash) (database outcome OFail: part inline). Which session lost is the
+        # scheduler's choice; it is read off the observed rows (c15_interleaved_store_is_sequential).
+        for mi, (store, conn, mbox, seq) in enumerate(copies):
+            grp = groups.get(store, [])
+            rws = grp[seq - 1] if seq - 1 < len(grp) else []
+            parts = sent[mi] if mi < len(sent) else []
+            lost = any(blob is None and ri < len(parts) and (parts[ri][2] or len(parts[ri][1]) > 1024) for ri, (blob, text, enc) in enumerate(rws))
+            evs = [e.replace("@DORC%d@" % mi, C.coq_list(["OFail"] * len(parts) if lost else [])) for e in evs]
         pfx = "s%d" % si
         d = ["Definition %s_evs : list event := %s." % (pfx, C.coq_list(evs)),
              "Definition %s_bl : list blobrow := %s." % (pfx, C.coq_list(oblobs)),
@@ -768,7 +895,7 @@ def judge_scenarios(chk, scen, rng, corpus_expect=None):
         stats["requests"] += lay["nreq"]
         for a in lay["anomalies"][:2]:
             nd += 1
-            chk.broken_obligation("C15 blobs scenario %d: %s (a store must be accepted: the model has no failing store)" % (si, a), payload)
+            chk.broken_obligation("C15 blobs scenario %d: %s (the model has no refused store / command and never deletes a blob row)" % (si, a), payload)
         if st[1] != 0:
             nd += 1
             chk.violation("the observed blobs table / part rows violate the state spec (reference count = number of part rows using the blob, "
@@ -812,8 +939,9 @@ def judge_scenarios(chk, scen, rng, corpus_expect=None):
             (n, reader, m, script, impl, glog, single) = r
             if code & 4:
                 nd += 1
-                chk.violation("FETCH %d BODY[] by a reader with S3 %s after %d events (script %s) was answered NO although no backend failed for any part" % (
-                    m + 1, "on" if reader else "off", n, script), dict(payload, readall={"events": n, "reader_s3": reader, "msg": m, "script": script}))
+                where = lay["copies"][m] if m < len(lay["copies"]) else ("?", "?", "?", m + 1)
+                chk.violation("FETCH BODY[] of copy %d of the history (%s of %s) by a reader with S3 %s after %d events (script %s) was answered NO although no backend failed for any part" % (
+                    m, where[2], where[0], "on" if reader else "off", n, script), dict(payload, readall={"events": n, "reader_s3": reader, "msg": m, "script": script}))
             elif code & 1:
                 if code & 2:
                     stats["class_mismatch_info"] += 1
